@@ -4,7 +4,8 @@
      that differ only in unsafe content - integers other than 0 and 10 against each other, strings
      position by position (equal bytes, or ASCII bytes other than line feed on both sides), nil and
      operands of SafeValue or registered types equal [lrel];
-   - trees of slices, arrays, structs, maps (keys shared), interface slots and pointers over them;
+   - trees of slices, arrays, structs, maps (keys shared), interface slots and pointers over them,
+     byte slices and byte arrays whose bytes are related position by position [brel];
    - values of user types whose String / Error / GoString method returns related strings, or whose
      Format / SafeFormat method runs a script of SafeWriter / io.Writer calls with related payloads
      and nested Print / Printf on related operands [vrel, actrel];
@@ -12,8 +13,8 @@
    make Buffer calls related by [dsim]: the same mode switches, the same literal/diagnostic writes,
    unsafe stretches of the same skeleton.  Hence (SegNI) Redact() of the two results is
    byte-identical: for every format (all flags, widths, precisions, argument indexes, bad verbs,
-   EXTRA/MISSING/BADINDEX/NOVERB diagnostics), without '*' (a width taken from an operand is
-   public).  The proof is a relational Hoare logic over the evaluator, run in lock step on the two
+   EXTRA/MISSING/BADINDEX/NOVERB diagnostics); a '*' width or precision is read from an operand,
+   which must then be the same integer in both calls (it is public) [star_ok].  The proof is a relational Hoare logic over the evaluator, run in lock step on the two
    inputs; the judgement also states that neither run panics. *)
 From Redact Require Import Bytes Tokens Utf8 Buffer Ops BufInv BufContent Fmt Value LBuf Printer Api.
 From Redact Require Import BufInvP BufContentP RedactNI SegNI FmtNI Hoare Keeps LeafP.
@@ -72,6 +73,16 @@ Proof.
 Qed.
 
 
+(* bytes of a byte slice / array: equal, or both ASCII, neither a line feed nor NUL (an element is also
+   printed as an integer by %v / %d) *)
+Definition brel (c1 c2 : N) : Prop :=
+  c1 = c2 \/ ((c1 < 128)%N /\ (c2 < 128)%N /\ c1 <> LF /\ c2 <> LF /\ c1 <> 0%N /\ c2 <> 0%N).
+Lemma brel_srel s1 s2 : Forall2 brel s1 s2 -> srel s1 s2.
+Proof.
+  induction 1 as [|c1 c2 r1 r2 Hc Hr IH]; cbn [srel]; [exact Logic.I|]. split; [|exact IH].
+  destruct Hc as [-> | (A & B & C & D & _)]; [now left | right; auto].
+Qed.
+
 (* trees: slices, arrays, structs, maps (keys shared), interface slots and pointers over related
    leaves; container types are not declared safe; values of user types whose String / Error /
    GoString method returns related strings (no Formatter, SafeFormatter, SafeMessager; value
@@ -84,6 +95,7 @@ Inductive vrel : value -> value -> Prop :=
     Forall2 (fun f1 f2 => fst f1 = fst f2 /\ vrel (snd f1) (snd f2)) fs1 fs2 -> vrel (VStruct t fs1) (VStruct t fs2)
 | vr_map t n kvs1 kvs2 : treg t = false -> tsv t = false ->
     Forall2 (fun a b => fst a = fst b /\ leafish (fst a) = true /\ vrel (snd a) (snd b)) kvs1 kvs2 -> vrel (VMap t n kvs1) (VMap t n kvs2)
+| vr_bytes t n s1 s2 : treg t = false -> tsv t = false -> Forall2 brel s1 s2 -> vrel (VBytes t n s1) (VBytes t n s2)
 | vr_iface_nil tn : vrel (VIface tn None) (VIface tn None)
 | vr_iface tn a b : vrel a b -> vrel (VIface tn (Some a)) (VIface tn (Some b))
 | vr_ptr_nil t u : treg t = false -> tsv t = false -> vrel (VPtr t u None) (VPtr t u None)
@@ -153,10 +165,11 @@ Proof. intros H. inversion H; subst; try reflexivity. destruct H0 as (-> & -> & 
 Definition vshape (v : value) : bool :=
   match v with
   | VNil | VBool _ _ | VInt _ _ | VUint _ _ | VFloat _ _ _ | VStr _ _
-  | VSlice _ _ _ | VArray _ _ | VStruct _ _ | VMap _ _ _ | VIface _ _ | VPtr _ _ _ | VUser _ _ _ _ _ => true
+  | VSlice _ _ _ | VArray _ _ | VStruct _ _ | VMap _ _ _ | VIface _ _ | VPtr _ _ _ | VUser _ _ _ _ _ | VBytes _ _ _ => true
   | _ => false
   end.
 Definition isuser (v : value) : bool := match v with VUser _ _ _ _ _ => true | _ => false end.
+Definition isbytes (v : value) : bool := match v with VBytes _ _ _ => true | _ => false end.
 Lemma vrel_shape v1 v2 : vrel v1 v2 -> vshape v1 = true /\ vshape v2 = true.
 Proof.
   intros H. inversion H; subst; try (split; reflexivity).
@@ -1773,6 +1786,77 @@ Section Rec.
   Lemma vrel_composite a b : vrel a b -> elem_kind_composite a = elem_kind_composite b.
   Proof. intros H. inversion H; subst; try reflexivity. destruct H0 as (L1 & L2 & _). destruct a, b; try discriminate; reflexivity. Qed.
 
+  (* ---------- byte slices and arrays ---------- *)
+  Lemma brel_urel c1 c2 : brel c1 c2 -> urel (Z.of_N c1) (Z.of_N c2).
+  Proof.
+    intros [-> | (A & B & C & D & E & F)]; [now left|]. right. unfold irel, two64, LF in *.
+    assert (Z.of_N c1 < 128 /\ Z.of_N c2 < 128) as [? ?] by (split; apply N2Z.inj_lt in A; apply N2Z.inj_lt in B; cbn in *; lia).
+    assert (Z.of_N c1 <> 0 /\ Z.of_N c2 <> 0 /\ Z.of_N c1 <> 10 /\ Z.of_N c2 <> 10) as (? & ? & ? & ?).
+    { repeat split; intros X; [apply E | apply F | apply C | apply D]; apply N2Z.inj; exact X. }
+    pose proof (N2Z.is_nonneg c1). pose proof (N2Z.is_nonneg c2). lia.
+  Qed.
+
+  Lemma Jbytes_plain verb : forall v1 v2, Forall2 brel v1 v2 -> forall first,
+    JS (HS False) any (bytes_plain first verb v1) (bytes_plain first verb v2).
+  Proof.
+    induction 1 as [|c1 c2 r1 r2 Hc Hr IH]; intros first; cbn [bytes_plain]; [apply J_JS; now apply J_ret|].
+    eapply (JS_bind_k False any any); [| |intros _ _ _].
+    - destruct first; apply J_JS; [now apply J_ret | apply J_wbyte].
+    - destruct first; [apply kovr_ret | apply kovr_wbyte].
+    - eapply (JS_bind_k False any any); [| apply kovr_keeps, keeps_bracket, start_ok_unsafe | intros _ _ _; apply IH].
+      eapply JS_weaken; [|apply (ubody_wr_rel (fun f => fmt_integer f (Z.of_N c1) 10 false verb false) (fun f => fmt_integer f (Z.of_N c2) 10 false verb false))].
+      + intros ? ? Hx Ho. destruct (Hx Ho).
+      + intros f. apply fmt_integer_urel; [right; right; left; reflexivity | now apply brel_urel].
+  Qed.
+
+  Lemma Jbytes_sharp : forall v1 v2, Forall2 brel v1 v2 -> forall first,
+    JS (HS False) any (bytes_sharp first v1) (bytes_sharp first v2).
+  Proof.
+    induction 1 as [|c1 c2 r1 r2 Hc Hr IH]; intros first; cbn [bytes_sharp]; [apply J_JS; now apply J_ret|].
+    eapply (JS_bind_k False any any); [| |intros _ _ _].
+    - destruct first; apply J_JS; [now apply J_ret | apply J_wstr].
+    - destruct first; [apply kovr_ret | apply kovr_wstr].
+    - eapply (JS_bind_k False any any); [| apply kovr_keeps, keeps_fmt0x64 | intros _ _ _; apply IH].
+      eapply JS_weaken; [|apply (Jfmt0x64 (Z.of_N c1) (Z.of_N c2) true); now apply brel_urel]. intros ? ? Hx Ho. destruct (Hx Ho).
+  Qed.
+
+  Lemma JfmtBytes self1 self2 v1 v2 isnil verb ts : vrel self1 self2 -> Forall2 brel v1 v2 ->
+    JS (HS False) any (fmtBytes rec env self1 v1 isnil verb ts) (fmtBytes rec env self2 v2 isnil verb ts).
+  Proof.
+    intros Hself Hb. pose proof (brel_srel _ _ Hb) as Hs. unfold fmtBytes.
+    assert (forall g1 g2 : fst_ -> list wop, (forall f, usegw (g1 f) (g2 f)) ->
+              JS (HS False) any (bracket start_unsafe (f <- getf ;; wr (g1 f))) (bracket start_unsafe (f <- getf ;; wr (g2 f)))) as Hw.
+    { intros g1 g2 Hg. eapply JS_weaken; [|apply (ubody_wr_rel g1 g2 Hg)]. intros ? ? Hx Ho. destruct (Hx Ho). }
+    destruct (isv verb "vd").
+    { eapply JS_bind_k; [apply J_JS, J_getf | apply kovr_getf | intros f ? <-].
+      destruct (sharpV (fl f)).
+      - eapply (JS_bind_k False any any); [apply J_JS, J_w1 | apply kovr_w1 | intros _ _ _].
+        destruct isnil; [apply J_JS, J_wstr|].
+        eapply (JS_bind_k False any any); [apply J_JS, J_wbyte | apply kovr_wbyte | intros _ _ _].
+        eapply JS_bind; [now apply Jbytes_sharp | intros; apply J_wbyte].
+      - eapply (JS_bind_k False any any); [apply J_JS, J_wbyte | apply kovr_wbyte | intros _ _ _].
+        eapply JS_bind; [now apply Jbytes_plain | intros; apply J_wbyte]. }
+    destruct (verb =? 115); [apply Hw; intros f; now apply fmt_s_rel|].
+    destruct (verb =? 120); [apply Hw; intros f; apply fmt_sbx_rel, srel_length, Hs|].
+    destruct (verb =? 88); [apply Hw; intros f; apply fmt_sbx_rel, srel_length, Hs|].
+    destruct (verb =? 113).
+    { eapply JS_weaken; [|apply (ubody_opt_rel (fun f => fmt_q (orc env) f v1) (fun f => fmt_q (orc env) f v2))].
+      - intros ? ? Hx Ho. destruct (Hx Ho).
+      - intros f w1 w2 E1 E2. eapply fmt_q_rel; eassumption. }
+    eapply JS_bind; [|intros; now apply J_ret].
+    eapply JS_weaken; [|apply (Hrec (CPrintValue self1 verb 0%nat true) (CPrintValue self2 verb 0%nat true)); exact (conj eq_refl (conj eq_refl (conj eq_refl Hself)))].
+    intros ? ? Hx Ho. destruct (Hx Ho).
+  Qed.
+
+  Lemma bytes_elems s1 s2 : Forall2 brel s1 s2 ->
+    Forall2 vrel (map (fun c => VUint t_uint8 (Z.of_N c)) s1) (map (fun c => VUint t_uint8 (Z.of_N c)) s2).
+  Proof.
+    induction 1 as [|c1 c2 r1 r2 Hc Hr IH]; cbn [map]; constructor; [|exact IH].
+    apply vr_leaf. split; [reflexivity|]. split; [reflexivity|].
+    destruct (brel_urel _ _ Hc) as [E | Hi]; [left; now rewrite E|].
+    right. split; [reflexivity|]. split; [reflexivity|]. split; [reflexivity | exact Hi].
+  Qed.
+
   Ltac seqk := eapply JS_bind_k; [ | | intros _ _ _].
 
   Lemma Jprint_kind_nu fuel v1 v2 verb depth ci : vrel v1 v2 -> isuser v1 = false ->
@@ -1810,6 +1894,28 @@ Section Rec.
            eapply JS_bind; [apply Jfor_kvs; [apply J_sepSp | apply kovr_sepSp | assumption] | intros; apply J_wbyte]
          | eapply JS_bind_k; [apply J_JS, J_wstr | apply kovr_wstr | intros _ _ _];
            eapply JS_bind; [apply Jfor_kvs; [apply J_sepSp | apply kovr_sepSp | assumption] | intros; apply J_wbyte] ]).
+    - (* byte slice / array *) apply Hcont; [reflexivity|].
+      assert (JS (HS False) any
+                (if isv verb "sqxX" then fmtBytes rec env (VBytes t n s1) s1 n verb (tname t)
+                 else f <- getf ;;
+                      let es := map (fun c => VUint t_uint8 (Z.of_N c)) s1 in
+                      if sharpV (fl f) then w1 (WS (tname t)) ;;; (if n then wstr "(nil)" else wbyte 123 ;;; for_elems rec (wstr ", ") true es verb depth ci ;;; wbyte 125)
+                      else wbyte 91 ;;; for_elems rec (wbyte 32) true es verb depth ci ;;; wbyte 93)
+                (if isv verb "sqxX" then fmtBytes rec env (VBytes t n s2) s2 n verb (tname t)
+                 else f <- getf ;;
+                      let es := map (fun c => VUint t_uint8 (Z.of_N c)) s2 in
+                      if sharpV (fl f) then w1 (WS (tname t)) ;;; (if n then wstr "(nil)" else wbyte 123 ;;; for_elems rec (wstr ", ") true es verb depth ci ;;; wbyte 125)
+                      else wbyte 91 ;;; for_elems rec (wbyte 32) true es verb depth ci ;;; wbyte 93)) as Hk.
+      { destruct (isv verb "sqxX"); [now apply JfmtBytes|].
+        eapply JS_bind_k; [apply J_JS, J_getf | apply kovr_getf | intros f ? <-]. cbv zeta.
+        pose proof (bytes_elems _ _ H1) as He.
+        destruct (sharpV (fl f)).
+        - eapply JS_bind_k; [apply J_JS, J_w1 | apply kovr_w1 | intros _ _ _]. destruct n; [apply J_JS, J_wstr|].
+          eapply JS_bind_k; [apply J_JS, J_wbyte | apply kovr_wbyte | intros _ _ _].
+          eapply JS_bind; [apply Jfor_elems; [apply J_wstr | apply kovr_wstr | exact He] | intros; apply J_wbyte].
+        - eapply JS_bind_k; [apply J_JS, J_wbyte | apply kovr_wbyte | intros _ _ _].
+          eapply JS_bind; [apply Jfor_elems; [apply J_wbyte | apply kovr_wbyte | exact He] | intros; apply J_wbyte]. }
+      destruct fuel; cbn [print_kind]; exact Hk.
     - (* nil interface *) apply Hcont; [reflexivity|]. destruct fuel; cbn [print_kind];
         (apply J_JS; eapply J_bind; [apply J_getf | intros f ? <-]; destruct (sharpV (fl f)); [eapply J_bind; [apply J_w1 | intros; apply J_wstr] | apply J_wstr]).
     - (* interface *) destruct fuel; cbn [print_kind];
@@ -1933,13 +2039,27 @@ Section Rec.
     intros Hv. destruct (Bool.bool_dec (leafish v1) true) as [L1|L1]; [apply Jpa_rest_leaf; now apply vrel_leaf_inv|].
     apply Bool.not_true_is_false in L1.
     destruct (vrel_tinfo _ _ Hv) as (_ & Etn & _).
-    assert (forall v, vshape v = true -> leafish v = false ->
+    destruct (isbytes v1) eqn:Eb.
+    { (* a byte slice / array *)
+      inversion Hv; subst; try discriminate; [destruct H as (Lx & _); destruct v1; discriminate|].
+      eapply JS_weaken with (H := HS False); [intros ? ? Hx Ho; destruct (Hx Ho) as [_ Lx]; discriminate|].
+      cbn [pa_rest type_name].
+      destruct (verb =? 84); [apply J_JS; eapply J_bind; [apply J_getf | intros f ? <-; apply J_wr]|].
+      destruct (verb =? 112); [intros ? ? _ _ _; exact Logic.I|].
+      cbn [is_basic]. destruct (existsb (beq (tname t)) basic_names); [now apply JfmtBytes|].
+      eapply JS_bind_k; [| apply Hkrec |].
+      - eapply JS_weaken; [|apply (Hrec (CHandleMethods verb) (CHandleMethods verb)); reflexivity]. intros ? ? _ _. exact Logic.I.
+      - intros h ? <-. destruct (rbool h); [apply J_JS; now apply J_ret|].
+        eapply JS_bind; [|intros; now apply J_ret]. now apply Jelem. }
+    assert (forall v, vshape v = true -> leafish v = false -> isbytes v = false ->
               pa_rest v verb = if verb =? 84 then f <- getf ;; wr (fmt_s f (type_name v))
                                else if verb =? 112 then fmtPointer rec env v 112
                                else (h <- rec (CHandleMethods verb) ;; if rbool h then ret tt else rec (CPrintValue v verb 0%nat true) ;;; ret tt)) as Hu
-      by (intros v Sv Lv; destruct v; try discriminate; reflexivity).
+      by (intros v Sv Lv Bv; destruct v; try discriminate; reflexivity).
     pose proof (vrel_shape _ _ Hv) as [S1 S2]. pose proof (vrel_leafish _ _ Hv) as EL. rewrite L1 in EL. symmetry in EL.
-    rewrite (Hu v1 S1 L1), (Hu v2 S2 EL), <- Etn.
+    assert (isbytes v2 = false) as Eb2.
+    { inversion Hv; subst; try reflexivity; try discriminate. destruct H as (_ & Lx & _). destruct v2; try discriminate; reflexivity. }
+    rewrite (Hu v1 S1 L1 Eb), (Hu v2 S2 EL Eb2), <- Etn.
     destruct (verb =? 84); [apply J_JS; eapply J_bind; [apply J_getf | intros f ? <-; apply J_wr]|].
     destruct (verb =? 112).
     { apply J_JS. inversion Hv; subst; try discriminate;
